@@ -581,4 +581,48 @@ theorem validExt_of_noext (doc : Doc) (d : SchemaD) (v : ValidNoExt doc d)
       noSpecified := v.noSpecified,
       rootsOk := ⟨_, v.rootsOk, by rw [v.noSchemaExt]; rfl⟩ }
 
+/-! ### independence of the order of definitions, WITH extensions -/
+
+theorem merged_names (doc : Doc) : (merged doc).map (·.name) = (typeDefs doc).map (·.name) := by
+  simp only [merged, List.map_map]
+  apply List.map_congr_left
+  intro t _
+  exact (mergeDef_spec (typeExts doc) t).2.1
+
+/-- **build_perm**: two valid documents with the same definitions in a different ORDER — the extension blocks of
+    every target (and the `extend schema` blocks) keeping their relative order — build schemas with the same
+    content: the same types with the same members in the same member order, the same directive definitions and
+    the same root operation types. -/
+theorem build_perm (doc₁ doc₂ : Doc) (d₁ d₂ : SchemaD) (b₁ b₂ : List TypeD) (v₁ : ValidExt doc₁ d₁ b₁) (v₂ : ValidExt doc₂ d₂ b₂)
+    (hp : doc₁.Perm doc₂) (hx : typeExts doc₁ = typeExts doc₂) (hsx : schemaExtensions doc₁ = schemaExtensions doc₂) :
+    build doc₁ = .ok d₁ ∧ build doc₂ = .ok d₂ ∧ d₁.types.Perm d₂.types ∧ d₁.directives.Perm d₂.directives ∧
+      d₁.query = d₂.query ∧ d₁.mutation = d₂.mutation ∧ d₁.subscription = d₂.subscription := by
+  obtain ⟨ht1, hd1, _⟩ := declared_parts doc₁ d₁ v₁.declares
+  obtain ⟨ht2, hd2, _⟩ := declared_parts doc₂ d₂ v₂.declares
+  have hmp : (merged doc₁).Perm (merged doc₂) := by
+    simp only [merged, hx]
+    exact (typeDefs_perm hp).map _
+  have henv : Env.of (merged doc₁) = Env.of (merged doc₂) :=
+    env_perm hmp (by rw [merged_names]; exact v₁.uniqueTypes)
+  rw [henv] at ht1 hd1
+  have hT : d₁.types.Perm d₂.types := by
+    obtain ⟨r, hr, hperm⟩ := mapM_perm _ hmp _ ht1
+    rw [ht2] at hr; cases hr; exact hperm
+  have hD : d₁.directives.Perm d₂.directives := by
+    obtain ⟨r, hr, hperm⟩ := mapM_perm _ (dirDefs_perm hp) _ hd1
+    rw [hd2] at hr; cases hr; exact hperm
+  have r1 := declared_roots doc₁ d₁ v₁.declares
+  have r2 := declared_roots doc₂ d₂ v₂.declares
+  have hs : schemaDefs doc₁ = schemaDefs doc₂ := perm_short (hp.filterMap _) v₁.oneSchema
+  have hr : declaredRoots doc₁ d₁.types = declaredRoots doc₂ d₂.types := by
+    simp only [declaredRoots, hsx, hs]
+    cases schemaDefs doc₂ with
+    | cons sd _ => rfl
+    | nil =>
+      simp only [defaultRoots]
+      rw [any_perm _ hT, any_perm _ hT, any_perm _ hT]
+  rw [← r1, ← r2] at hr
+  refine ⟨build_exact_partial doc₁ d₁ b₁ v₁, build_exact_partial doc₂ d₂ b₂ v₂, hT, hD, ?_⟩
+  simpa [Roots.mk.injEq] using hr
+
 end PyGql.Props.C11
